@@ -168,6 +168,11 @@ def main(tier, replay):
     else:
         why = (exe if not okg else modelrun)
         v.violation({"kind": "harness-build", "correspondence": "SnapRead driver/model build against the current tree", "error": why}, has_input=False)
+    if tier == "thorough" and not proof_broken and not replay:
+        okc, outc = vlib.coqchk(["Verif.SnapRead.Props"])
+        cov["coqchk"] = "ok" if okc else "FAILED"
+        if not okc:
+            v.violation({"kind": "proof", "theorem_or_file": "coqchk Verif.SnapRead.Props", "what": outc[-600:]}, has_input=False)
     if proof_broken:
         v.violation({"kind": "proof", "theorem_or_file": gate["problems"], "what": "Coq obligations no longer check"}, has_input=False)
     cls = stats.get("classes", {})
